@@ -107,6 +107,10 @@ def gen_grammar(rng, tier, base, cli):
     dfmt = rng.choice(["pmcfg", "rcg", "lopar"])
     fmt, path, f = src_file(rng, tier, base, fmt=rng.choice(["export", "tigerxml", "brackets"])
                             if dfmt != "lopar" else rng.choice(["brackets", "export"]))
+    if dfmt == "lopar" and fmt == "brackets":
+        for x in f["tb"]:
+            x["root"][0] = rng.choice(["VROOT", "TOP", "FRAG", "ROOT"])   # several start symbols
+        f["kw"] = {"emptyroot": False}
     mode = c08.gen_mode(rng) if rng.random() < 0.7 else None
     dest = "%s/g" % base
     if cli:
